@@ -467,3 +467,55 @@ class _HoistCalls(ast.NodeTransformer):
 
 
 TRANSFORMS["hoisted_calls"] = _HoistCalls
+
+
+class _InlineTemps(ast.NodeTransformer):
+    """`t = E; S` with t a local that occurs exactly once more in the function, inside the simple statement S that follows (not under a lambda or a
+    comprehension, not as a store): E is written where t was and the assignment is dropped. Only for E without calls (no evaluation-order question)."""
+    n = 0
+
+    def visit_FunctionDef(self, fn):
+        self.generic_visit(fn)
+        changed = True
+        while changed:
+            changed = False
+            counts = {}
+            for x in ast.walk(fn):
+                if isinstance(x, ast.Name):
+                    counts[x.id] = counts.get(x.id, 0) + 1
+            for node in ast.walk(fn):
+                for f in ("body", "orelse", "finalbody"):
+                    v = getattr(node, f, None)
+                    if not (isinstance(v, list) and v and isinstance(v[0], ast.stmt)):
+                        continue
+                    for i in range(len(v) - 1):
+                        a, b = v[i], v[i + 1]
+                        if not (isinstance(a, ast.Assign) and len(a.targets) == 1 and isinstance(a.targets[0], ast.Name)) or not isinstance(b, (ast.Assign, ast.Return, ast.Expr)):
+                            continue
+                        t = a.targets[0].id
+                        if counts.get(t) != 2 or any(isinstance(x, (ast.Call, ast.Lambda, ast.ListComp, ast.GeneratorExp, ast.DictComp, ast.SetComp, ast.Await, ast.Yield,
+                                                                     ast.NamedExpr)) for x in ast.walk(a.value)):
+                            continue
+                        if b.value is None or any(isinstance(x, (ast.Lambda, ast.ListComp, ast.GeneratorExp, ast.DictComp, ast.SetComp)) for x in ast.walk(b.value)):
+                            continue
+                        uses = [x for x in ast.walk(b.value) if isinstance(x, ast.Name) and x.id == t and isinstance(x.ctx, ast.Load)]
+                        if len(uses) != 1:
+                            continue
+                        val = a.value
+
+                        class _Sub(ast.NodeTransformer):
+                            def visit_Name(self, n):
+                                return val if n is uses[0] else n
+                        b.value = _Sub().visit(b.value)
+                        del v[i]
+                        _InlineTemps.n += 1
+                        changed = True
+                        break
+                    if changed:
+                        break
+                if changed:
+                    break
+        return fn
+
+
+TRANSFORMS["inlined_temporaries"] = _InlineTemps
